@@ -1,0 +1,9 @@
+//go:build verif
+
+package code39
+
+// Hooks for the verification harness in /verif (build tag `verif` only).
+
+func VerifGetChecksum(content string) string { return getChecksum(content) }
+
+func VerifPrepare(content string) (string, error) { return prepare(content) }
